@@ -18,7 +18,7 @@ CRATES = ['circuits', 'zk_stdlib', 'zkir', 'aggregator']
 CT = {'AssignedBit', 'AssignedByte', 'AssignedBounded', 'AssignedField', 'AssignedNativePoint', 'AssignedScalarOfNativeCurve', 'AssignedBigUint',
       'AssignedForeignPoint', 'AssignedVector'}
 UNSAFE = ('convert_unsafe', 'update_bound', 'from_limbs_unsafe', 'to_assigned_bounded_unsafe', 'point_from_coordinates_unsafe', 'assign_point_unchecked',
-          'unsafe_convert_to_bytes')
+          'unsafe_convert_to_bytes', 'incomplete_add', 'incomplete_assert_different_x')
 
 
 def in_scope(f, prop):
@@ -282,6 +282,60 @@ def mine_symupdates(w):
     return rows
 
 
+def ret_cover(f):
+    """[(rendered returned expression, parameters that the returned value or the conditions guarding the return depend on)] for explicit `return`s"""
+    from ..core import children, expr_str
+    params = [(b['n'], b['i'], b.get('t')) for p in f.get('params', []) for b in pat_bindings(p) if b['n'] not in ('self', 'layouter', 'region', 'offset')]
+    if not params:
+        return []
+    vf = valflow.ValFlow(f, sources=params)
+    out = []
+
+    def rec(n, conds):
+        k = n.get('k')
+        if k == 'ret' and 'e' in n:
+            cov = set(vf.ev(n['e']))
+            for c in conds:
+                cov |= set(vf.ev(c))
+            out.append((expr_str(n['e'])[:80], sorted(cov), n))
+        if k == 'if':
+            rec(n['c'], conds)
+            rec(n['a'], conds + [n['c']])
+            if 'b' in n:
+                rec(n['b'], conds + [n['c']])
+            return
+        if k == 'match':
+            rec(n['e'], conds)
+            for a in n['arms']:
+                rec(a['body'], conds + [n['e']])
+            return
+        if k == 'closure':
+            return
+        for c in children(n):
+            rec(c, conds)
+    rec(f['body'], [])
+    return [(e, c, n) for e, c, n in out if not e.startswith(('Err', 'Result::Err'))]
+
+
+def mine_retcover(w):
+    rows = []
+    for f in w.all_fns(CRATES):
+        if '::tests::' in f['_nid'] or '/tests' in f['file']:
+            continue
+        prop = prop_of_file(f['file'])
+        if prop is None:
+            continue
+        seen = set()
+        for e, cov, _ in ret_cover(f):
+            if e in seen or not cov:
+                continue
+            seen.add(e)
+            # several returns with the same rendering: keep the intersection (what every one of them covers)
+            allc = [set(c) for e2, c, _ in ret_cover(f) if e2 == e]
+            rows.append(dict(property=prop, fn=f['_xid'], returns=e, covered=sorted(set.intersection(*allc))))
+    return rows
+
+
 def load_rules(name):
     p = os.path.join(facts.VERIF, 'rules', name)
     with open(p) as fh:
@@ -491,3 +545,26 @@ def run_d(ck, w, prop, floors):
                   f'{r["fn"]}: `{r["place"]}` was assigned in every arm of an if/else inside a loop ({r["sites"]} site(s)) and is now assigned in only some arms '
                   f'({have} symmetric site(s)): on the other arm the next iteration sees a stale value', hirq.fn_loc(f))
     ck.count(f'{P}.D9 places', len(rows9))
+    # ------------------------------------------------------------------ D10
+    ck.rule(f'{P}.D10', 'shortcut returns stay guarded: for each early `return <value>` of rules/retcover.json, every parameter that the returned value or the '
+                        'conditions guarding that return depended on (reference tree) still does.  A shortcut whose guard forgets one operand (a multiplying '
+                        'constant, a flag) returns a value that ignores it.  Removed shortcuts are not reported.')
+    rows10 = [r for r in load_rules('retcover.json') if r['property'] == prop]
+    matched = 0
+    cache = {}
+    for r in rows10:
+        f = w.fn_x(r['fn'], required=False)
+        if f is None:
+            continue
+        if r['fn'] not in cache:
+            cache[r['fn']] = ret_cover(f)
+        cur = [(c, n) for e, c, n in cache[r['fn']] if e == r['returns']]
+        if not cur:
+            continue
+        matched += 1
+        for c, n in cur:
+            missing = sorted(set(r['covered']) - set(c))
+            ck.record(f'{P}.D10', f'{r["fn"]}|return {r["returns"][:50]}', not missing, f'guarded by / built from {c}',
+                      f'{r["fn"]}: `return {r["returns"]}` no longer depends on {missing} (neither the value nor the conditions guarding it): the shortcut is taken '
+                      f'whatever {missing} is', hirq.fn_loc(f, n))
+    ck.floor(f'{P}.D10', 'shortcut returns matched', matched, (len(rows10) * 3) // 4)
